@@ -65,13 +65,18 @@ def _rules(ctx, rep, eng):
         bad = {}
         npaths = 0
         infeasible = 0
+        unknown = {}
         for run in runs:
             for p in run.paths:
                 npaths += 1
                 if p.kind == "raise":
                     k = issue_key(rule, p.val.issue)
                     if k not in bad:
-                        if not path_feasible(eng, p):
+                        feas = path_feasible(eng, p)
+                        if feas is None:
+                            unknown.setdefault(k, (p.val, run))
+                            continue
+                        if not feas:
                             infeasible += 1
                             continue
                         bad[k] = (p.val, run)
@@ -80,7 +85,12 @@ def _rules(ctx, rep, eng):
                          "{}: {}".format(rv.exc, rv.issue.detail),
                          witness={"rule": name, "parameter_shapes": shapes_desc(run),
                                   "exception": rv.exc, "chain": [c[1] for c in rv.issue.chain]})
-        if not bad:
+        for k, (rv, run) in sorted(unknown.items()):
+            if k not in bad:
+                rep.undecided("no-raise", k, rv.issue.where,
+                              "{}: {} on a path whose condition contains a test outside the "
+                              "evaluator's model (feasibility not decided)".format(rv.exc, rv.issue.detail))
+        if not bad and not unknown:
             rep.ok("no-raise", rule_construct(rule, "body"), rule.where,
                    "{} paths over {} shape combinations{}".format(
                        npaths, len(runs), " ({} raising paths infeasible)".format(infeasible) if infeasible else ""))
@@ -89,20 +99,30 @@ def _rules(ctx, rep, eng):
 
 def _latent(ctx, rep, eng):
     bad = {}
+    unknown = {}
     n = 0
     for key, (shape, paths, err) in eng.latent.items():
         if err:
             rep.undecided("latent-no-raise", "apply_postprocessing_rules", "-", err)
         for p in paths:
             n += 1
-            if p.kind == "raise":
-                bad.setdefault(p.val.issue.construct, (p.val, shape))
+            if p.kind == "raise" and p.val.issue.construct not in bad:
+                feas = path_feasible(eng, p)
+                if feas is None:
+                    unknown.setdefault(p.val.issue.construct, p.val)
+                elif feas:
+                    bad[p.val.issue.construct] = (p.val, shape)
             for (where, construct, why) in p.undecided:
                 rep.undecided("latent-no-raise", construct, where, why)
+    for k, rv in sorted(unknown.items()):
+        if k not in bad:
+            rep.undecided("latent-no-raise", k, rv.issue.where,
+                          "{}: {} on a path whose condition contains a test outside the evaluator's "
+                          "model (feasibility not decided)".format(rv.exc, rv.issue.detail))
     for k, (rv, shape) in sorted(bad.items()):
         rep.violated("latent-no-raise", k, rv.issue.where, "{}: {}".format(rv.exc, rv.issue.detail),
                      witness={"shape": shape.describe()})
-    if not bad:
+    if not bad and not unknown:
         rep.ok("latent-no-raise", "ctparse/time/postprocess_latent.py::apply_postprocessing_rules",
                "ctparse/time/postprocess_latent.py", "{} paths over {} shapes".format(n, len(eng.latent)))
     rep.count("latent_paths", n, 20)
@@ -154,7 +174,7 @@ def _accessors(ctx, rep, eng):
 
 def _render(ctx, rep, eng):
     """Class 8: format specs applied to None in CTParse.__str__/__repr__."""
-    cm = ctx.mod("ctparse.ctparse")
+    cm = ctx.imod("ctparse.ctparse")
     cls = cm.classes.get("CTParse")
     if cls is None:
         raise AnalysisError("anchor vanished: class CTParse")
@@ -239,7 +259,7 @@ def _encl(node):
 
 
 def _handlers(ctx, rep):
-    cm = ctx.mod("ctparse.ctparse")
+    cm = ctx.imod("ctparse.ctparse")
     n = 0
     for qual in ("ctparse", "ctparse_gen", "_ctparse", "_match_rule", "_match_regex",
                  "_regex_stack"):
@@ -270,7 +290,7 @@ def _handlers(ctx, rep):
                             cm.where(h), not reraise,
                             "" if not reraise else "the timeout handler raises: an expired deadline "
                             "escapes from the parse call", nontrivial=False)
-    pm = ctx.mod("ctparse.partial_parse")
+    pm = ctx.imod("ctparse.partial_parse")
     f = pm.funcs.get("PartialParse.apply_rule")
     if f is None:
         raise AnalysisError("anchor vanished: PartialParse.apply_rule")
@@ -282,7 +302,7 @@ def _handlers(ctx, rep):
 
 
 def _termination(ctx, rep, eng):
-    pm = ctx.mod("ctparse.partial_parse")
+    pm = ctx.imod("ctparse.partial_parse")
     f = pm.func("PartialParse.apply_rule")
     # (i) the new production is prefix + (one element,) + suffix
     ok = False
@@ -316,14 +336,15 @@ def _termination(ctx, rep, eng):
             rep.violated("termination", rule_construct(r, "patterns"), r.where,
                          "rule without patterns applies to the empty window forever")
     # (iv) _regex_stack appends s + (j,) with j drawn from range(i + 1, ...)
-    cm = ctx.mod("ctparse.ctparse")
+    cm = ctx.imod("ctparse.ctparse")
     f = cm.func("_regex_stack")
     ok = False
     for w in ast.walk(f):
         if isinstance(w, ast.While):
             for loop in ast.walk(w):
-                if isinstance(loop, ast.For) and isinstance(loop.iter, ast.Call) and \
-                        e1.callee_name(loop.iter.func) == "range" and loop.iter.args:
+                # a for statement or a comprehension clause: both enumerate the extension indices
+                if isinstance(loop, (ast.For, ast.comprehension)) and isinstance(loop.iter, ast.Call) and \
+                        e1.callee_name(loop.iter.func) == "range" and len(loop.iter.args) >= 2:
                     lo = loop.iter.args[0]
                     if isinstance(lo, ast.BinOp) and isinstance(lo.op, ast.Add) and \
                             isinstance(lo.right, ast.Constant) and lo.right.value >= 1:
@@ -364,12 +385,12 @@ def _find_cycle(g):
 
 
 def _fallback(ctx, rep):
-    lm = ctx.mod("ctparse.loader")
+    lm = ctx.imod("ctparse.loader")
     f = lm.func("load_default_scorer")
-    sm = ctx.mod("ctparse.scorer")
+    sm = ctx.imod("ctparse.scorer")
     scorers = set()
     for mn in ("ctparse.scorer", "ctparse.nb_scorer"):
-        m = ctx.mod(mn)
+        m = ctx.imod(mn)
         for cn, c in m.classes.items():
             for b in c.bases:
                 if norm(b) == "Scorer":
@@ -401,7 +422,7 @@ def _under_if(node, f):
 
 
 def _typing(ctx, rep):
-    cm = ctx.mod("ctparse.ctparse")
+    cm = ctx.imod("ctparse.ctparse")
     init = cm.func("CTParse.__init__")
     params = [a.arg for a in init.args.args][1:]
     for qual in ("ctparse", "_ctparse"):
@@ -496,9 +517,11 @@ def _is_list_of_str(g, e):
 
 
 def _log_domain(ctx, rep):
-    nm = ctx.mod("ctparse.nb_scorer")
+    nm = ctx.imod("ctparse.nb_scorer")
     n = 0
     for qual, f in nm.funcs.items():
+        if qual in getattr(nm, "fully_inlined", ()):
+            continue    # a helper that is analysed where it is called
         for c in calls_in(f, "log"):
             n += 1
             a = c.args[0] if c.args else None
